@@ -64,7 +64,7 @@ var hostileKeys = []sym{
 	{"open", "a["}, {"close", "a]"}, {"lone-open", "["}, {"lone-close", "]"},
 	{"deep", "a[b][c][d]"}, {"deep-known", "A[B][C][D]"},
 	{"huge-index", "Strs[99999999]"}, {"empty-index", "Strs[]"}, {"index0", "Strs[0]"},
-	{"items-max", "Items[16000][X]"}, {"items-over", "Items[16001][X]"}, {"items-neg", "Items[-1][X]"},
+	{"items-max", "Items[16000][X]"}, {"items-over", "Items[16001][X]"}, {"items-huge", "Items[9999999][X]"}, {"items-neg", "Items[-1][X]"},
 	{"items-overflow", "Items[9223372036854775808][X]"}, {"items-dotted", "Items.3.Y"}, {"items-neg-dotted", "Items.-1.X"},
 	{"double-open", "a[[b]]"}, {"reversed", "a][b"}, {"empty-key", ""}, {"dot", "."}, {"trailing-dot", "Str."},
 	{"known-str", "Str"}, {"known-strs", "Strs"}, {"known-int", "I"}, {"known-ints", "Is"}, {"known-bool", "B"},
@@ -419,10 +419,8 @@ func (t *tot) runGroup(g hostileGroup, col *collector, mine func(idx int) bool, 
 		for i, c := range cases {
 			t.l.Add("evaluations", 2)
 			t.l.Add("totality_requests", 2)
-			if len(c.Tags) > 0 {
-				t.l.Add("nontrivial", 2)
-			}
 			m, a := resM[i], resA[i]
+			t.l.Add("nontrivial", int64(m.calls+a.calls))
 			switch {
 			case m.calls == 0:
 				t.l.Outcome(fmt.Sprintf("T %s refused-by-http-parser status=%d", g.Src, m.status))
@@ -440,7 +438,7 @@ func (t *tot) runGroup(g hostileGroup, col *collector, mine func(idx int) bool, 
 				t.report(g, st, c, kind, detail, m.errText, col)
 			}
 			if c.Ord%50021 == 7 {
-				t.l.Sample(map[string]any{"part": "totality", "group": g.Name, "request": clip(string(c.Req), 300), "manual_status": m.status, "auto_status": a.status, "error": clip(m.errText, 120), "must_error": c.MustErr})
+				t.l.Sample(map[string]any{"ord": c.Ord, "part": "totality", "group": g.Name, "request": clip(string(c.Req), 300), "manual_status": m.status, "auto_status": a.status, "error": clip(m.errText, 120), "must_error": c.MustErr})
 			}
 		}
 		cases = cases[:0]
@@ -473,7 +471,7 @@ func wordsOnly(s string) string {
 		case b.Len() > 0 && b.String()[b.Len()-1] != '-':
 			b.WriteByte('-')
 		}
-		if b.Len() >= 48 {
+		if strings.Count(b.String(), "-") >= 5 {
 			break
 		}
 	}
